@@ -30,9 +30,9 @@ Forest ==
    inst |-> <<
      [class |-> "Folder", name |-> <<82, 111, 111, 116>>, parent |-> 0, kids |-> <<2, 3, 4, 5, 6>>, props |-> <<>>],
      [class |-> "IntValue", name |-> <<73>>, parent |-> 1, kids |-> <<>>,
-        props |-> << <<"Value", [t |-> "Int64", v |-> I64(5)]>> >>],
+        props |-> << <<"Value", [t |-> "Int64", v |-> <<0, 0, 0, 0, 119, 53, 148, 0>>]>> >>],           \* 2 000 000 000
      [class |-> "IntValue", name |-> <<74>>, parent |-> 1, kids |-> <<>>,
-        props |-> << <<"Value", [t |-> "Int64", v |-> I64(-3)]>> >>],
+        props |-> << <<"Value", [t |-> "Int64", v |-> <<255, 255, 255, 255, 166, 151, 209, 0>>]>> >>],   \* -1 500 000 000
      [class |-> "NumberValue", name |-> <<78>>, parent |-> 1, kids |-> <<>>,
         props |-> << <<"Value", [t |-> "Float64", v |-> <<63, 248, 0, 0, 0, 0, 0, 0>>]>> >>],
      [class |-> "ObjectValue", name |-> <<79>>, parent |-> 1, kids |-> <<>>,
@@ -62,7 +62,9 @@ Expect == Forest
 Perms(S) == {f \in [1..Cardinality(S) -> S] : \A i, j \in 1..Cardinality(S) : i # j => f[i] # f[j]}
 
 ClassIdOptions == { [i \in 1..NC |-> i - 1], [i \in 1..NC |-> 40 - 3 * i] }
-ReferentOptions == { [k \in 1..N |-> k - 1], [k \in 1..N |-> N - k], [k \in 1..N |-> 7 * ((k * 5) % 11) + 100] }
+\* dense, reversed, scattered, and large sparse numbers (differences of a billion between neighbours)
+ReferentOptions == { [k \in 1..N |-> k - 1], [k \in 1..N |-> N - k], [k \in 1..N |-> 7 * ((k * 5) % 11) + 100],
+                     [k \in 1..N |-> IF k % 2 = 0 THEN 1000000000 + k ELSE 2000000000 + 3 * k] }
 
 \* PRNT orders keeping siblings in order
 RECURSIVE Pre(_), Post(_)
